@@ -17,6 +17,7 @@ pub struct SinkLog {
     /// calls made while an error was still unreported
     pub calls_while_pending: usize,
     pub pending: bool,
+    pub panicked_at: usize,
 }
 pub struct Sink {
     pub log: Rc<RefCell<SinkLog>>,
@@ -26,6 +27,8 @@ pub struct Sink {
     pub fail_at: Option<usize>,
     pub heal: usize,
     pub interrupt: usize,
+    /// the sink panics in its n-th call (1-based), after accepting half of what it was given
+    pub panic_at: usize,
 }
 impl Write for Sink {
     fn write(&mut self, buf: &[u8]) -> io::Result<usize> {
@@ -33,6 +36,13 @@ impl Write for Sink {
         l.calls += 1;
         if l.pending {
             l.calls_while_pending += 1;
+        }
+        if self.panic_at > 0 && l.calls == self.panic_at {
+            let n = buf.len() / 2;
+            l.accepted.extend_from_slice(&buf[..n]);
+            l.panicked_at = l.calls;
+            drop(l);
+            panic!("injected sink panic");
         }
         if self.interrupt > 0 && l.calls % self.interrupt == 0 {
             return Err(io::Error::new(io::ErrorKind::Interrupted, "injected interrupt"));
@@ -132,6 +142,7 @@ pub struct Cfg {
     pub interrupt: usize,
     /// bytes written before the sequence starts, so that the sequence runs at a chosen fill level of the buffer
     pub prefill: usize,
+    pub panic_at: usize,
 }
 fn subsequence(acc: &[u8], written: &[u8]) -> bool {
     let mut k = 0;
@@ -187,7 +198,7 @@ pub fn run_seq(cfg: Cfg, ops: &[Op]) -> Option<(String, String)> {
         }
     });
     let log = Rc::new(RefCell::new(SinkLog::default()));
-    let sink = Sink { log: log.clone(), max: cfg.max, fail_at: cfg.fail_at, heal: cfg.heal, interrupt: cfg.interrupt };
+    let sink = Sink { log: log.clone(), max: cfg.max, fail_at: cfg.fail_at, heal: cfg.heal, interrupt: cfg.interrupt, panic_at: cfg.panic_at };
     let mut written: Vec<u8> = vec![];
     let mut next = 0usize;
     let mut fresh = |n: usize, written: &mut Vec<u8>| -> Vec<u8> {
@@ -281,7 +292,19 @@ pub fn run_seq(cfg: Cfg, ops: &[Op]) -> Option<(String, String)> {
     }));
     match r {
         Ok(x) => x,
-        Err(p) => Some(("C11 write calls succeed".to_string(), format!("panic: {}", panic_msg(p)))),
+        Err(p) => {
+            let msg = panic_msg(p);
+            if cfg.panic_at > 0 && msg.contains("injected sink panic") {
+                // the sink panicked inside a call of the writer and the writer was dropped while unwinding: the sink must not be
+                // called again (the buffered bytes were partly handed over already), and what it saw is still a selection of the stream
+                let l = log.borrow();
+                if l.calls != l.panicked_at {
+                    return Some(("C11 a writer whose sink panicked does not flush again when it is dropped".to_string(), format!("{} further sink calls after the panic", l.calls - l.panicked_at)));
+                }
+                return None;
+            }
+            Some(("C11 write calls succeed".to_string(), format!("panic: {}", msg)))
+        }
     }
 }
 fn first_diff(a: &[u8], b: &[u8]) -> Option<usize> {
@@ -291,21 +314,23 @@ pub fn configs() -> Vec<Cfg> {
     let mut v = vec![];
     for &prefill in &[0usize, 16370, 16383] {
         for &max in &[usize::MAX, 4, 16384] {
-            v.push(Cfg { max, fail_at: None, heal: 0, interrupt: 0, prefill });
-            v.push(Cfg { max, fail_at: None, heal: 0, interrupt: 2, prefill });
+            v.push(Cfg { max, fail_at: None, heal: 0, interrupt: 0, prefill, panic_at: 0 });
+            v.push(Cfg { max, fail_at: None, heal: 0, interrupt: 2, prefill, panic_at: 0 });
+            v.push(Cfg { max, fail_at: None, heal: 0, interrupt: 0, prefill, panic_at: 1 });
+            v.push(Cfg { max, fail_at: None, heal: 0, interrupt: 0, prefill, panic_at: 2 });
             for &fail_at in &[0usize, 4, 16384, 16390] {
-                v.push(Cfg { max, fail_at: Some(fail_at), heal: 1, interrupt: 0, prefill });
-                v.push(Cfg { max, fail_at: Some(fail_at), heal: usize::MAX, interrupt: 0, prefill });
+                v.push(Cfg { max, fail_at: Some(fail_at), heal: 1, interrupt: 0, prefill, panic_at: 0 });
+                v.push(Cfg { max, fail_at: Some(fail_at), heal: usize::MAX, interrupt: 0, prefill, panic_at: 0 });
             }
         }
     }
     v
 }
 fn cfg_args(c: &Cfg) -> Vec<String> {
-    vec![c.max.to_string(), c.fail_at.map(|x| x.to_string()).unwrap_or("-".into()), c.heal.to_string(), c.interrupt.to_string(), c.prefill.to_string()]
+    vec![c.max.to_string(), c.fail_at.map(|x| x.to_string()).unwrap_or("-".into()), c.heal.to_string(), c.interrupt.to_string(), c.prefill.to_string(), c.panic_at.to_string()]
 }
 fn cfg_from(a: &[String]) -> Cfg {
-    Cfg { max: a[0].parse().unwrap(), fail_at: a[1].parse().ok(), heal: a[2].parse().unwrap(), interrupt: a[3].parse().unwrap(), prefill: a[4].parse().unwrap() }
+    Cfg { max: a[0].parse().unwrap(), fail_at: a[1].parse().ok(), heal: a[2].parse().unwrap(), interrupt: a[3].parse().unwrap(), prefill: a[4].parse().unwrap(), panic_at: a.get(5).and_then(|x| x.parse().ok()).unwrap_or(0) }
 }
 pub fn suite(_prop: &str, tier: &str, seed: u64) -> Report {
     let mut rep = Report::new();
@@ -357,7 +382,7 @@ pub fn suite(_prop: &str, tier: &str, seed: u64) -> Report {
     // every integer value of the table at every fill level near the end of the buffer
     for prefill in 16384 - 45..=16384 {
         for k in 0..DIGITS {
-            let cfg = Cfg { max: usize::MAX, fail_at: None, heal: 0, interrupt: 0, prefill };
+            let cfg = Cfg { max: usize::MAX, fail_at: None, heal: 0, interrupt: 0, prefill, panic_at: 0 };
             let ops = [Op::Digits(k), Op::W(1), Op::Digits(k)];
             rep.runs += 1;
             if let Some((check, detail)) = run_seq(cfg, &ops) {
